@@ -92,7 +92,8 @@ AUT_TB = [KERNEL, EXTRACT, HARNESS,
           "fed to the checkers is computed by unverified code and only checked"]
 AUT_ASSUME = COMMON_ASSUMPTIONS + [
     "the 64-bit FxHash used by AutomatonTraverser::visit is modelled by the restricted binding itself (hash collisions are not exhibited)",
-    "port graphs are not covered by this check yet (see not_applicable notes in DESIGN.md)"]
+    "port graphs: no Gallina model of the host side (walk_path, root candidates) exists; the port-graph part of this check is "
+    "implementation-versus-specification only (embedding oracle), with the known-finding classes of KNOWN_FINDINGS.json"]
 
 def aut_prop(level, explanation, technique, subs):
     return {"subs": subs, "level": level, "rule": AUT_RULE, "trusted_base": AUT_TB, "assumptions": AUT_ASSUME,
@@ -105,23 +106,23 @@ PROPS.update({
         "evaluated on every automaton the real builder produces for the generated pattern sets; the modelled traversal is compared with "
         "ManyMatcher::find_matches as exact match sequences on those automata; every reported match is also judged by an independent occurrence oracle.",
         "Coq proof (invariant of the FIFO traversal w.r.t. an inductive labelling) + verified certificate checker on the real automaton + differential correspondence + occurrence oracle",
-        ["c01"]),
+        ["c01", "pg01"]),
     "C02": aut_prop("translation_validation",
         "cert_complete (proved sound w.r.t. the abstract semantics of the automaton, for all valuations, hence all hosts and anchors) is evaluated on "
         "every real automaton; the step from abstract acceptance to the concrete traversal is decided by correspondence (model traversal = real "
         "traversal, exact sequences) and by the oracle (every occurrence found by an independent scan must be reported).",
         "verified completeness certificate (AND-OR search, Coq soundness proof) on the real automaton + differential correspondence + occurrence oracle",
-        ["c02"]),
+        ["c02", "pg02"]),
     "C03": aut_prop("translation_validation",
         "Theorem c03_accepts_iff_constraints: on an automaton passing both certificates, pattern i is accepted under a valuation iff all constraints "
         "of pattern i are true - i.e. exactly when the one-pattern matcher's constraints hold; evaluated per real automaton; ManyMatcher and "
         "NaiveManyMatcher are compared as sets of (pattern, bindings) incl. the match data on every generated host.",
-        "verified certificates (sound + complete) on the real automaton + ManyMatcher vs NaiveManyMatcher differential", ["c03"]),
+        "verified certificates (sound + complete) on the real automaton + ManyMatcher vs NaiveManyMatcher differential", ["c03", "pg03"]),
     "C04": aut_prop("translation_validation",
         "Theorem c04_heuristic_independent_acceptance: two certified automata for the same constraint lists accept the same patterns under the same "
         "valuations; every heuristic answer sequence is enumerated while the number of builds stays <= 24 (quick) / 256 (thorough), random beyond; "
         "each automaton is certified and all match multisets are compared pairwise.",
-        "verified certificates on every automaton of every enumerated heuristic answer sequence + pairwise multiset comparison", ["c04"]),
+        "verified certificates on every automaton of every enumerated heuristic answer sequence + pairwise multiset comparison", ["c04", "pg04"]),
     "C06": aut_prop("translation_validation",
         "Theorem c06_pattern_independent_acceptance (certified automata for pattern lists sharing a constraint list accept it identically); each "
         "pattern compiled alone vs inside the set, a rotated set with renumbering, duplicates, n_patterns/get_pattern.",
@@ -134,12 +135,12 @@ PROPS.update({
         "wf_check (proved to establish every clause of the property, Theorem c09_wf_check_sound / c09_clauses) is evaluated on the dump of every "
         "automaton built, for all enumerated heuristic answer sequences - all states, not only those a host visits.",
         "verified structural checker (Coq soundness proof) run on the dump of every real automaton", ["c09"]),
-    "C05": {"subs": ["c05"], "level": "exploration", "rule": AUT_RULE + "; for C05 each (pattern, host) pair is one case",
+    "C05": {"subs": ["c05", "pg05"], "level": "exploration", "rule": AUT_RULE + "; for C05 each (pattern, host) pair is one case",
         "trusted_base": AUT_TB, "assumptions": AUT_ASSUME, "timeout": 3000,
         "explanation": "SinglePatternMatcher::find_matches / match_exists and NaiveManyMatcher are compared with the extracted model (exact sequences) "
                        "and with an independent occurrence scan (exact anchor lists, order included); pattern -> constraint vectors are compared exactly.",
         "technique": "differential correspondence with the Gallina model of the single-pattern matcher + occurrence oracle"},
-    "C11": {"subs": ["c11"], "level": "proof",
+    "C11": {"subs": ["c11", "pg11"], "level": "proof",
         "rule": "random patterns (as for C01) inside sets of 1-4 patterns; each pattern is matched against its own instantiation (variables instantiated "
                 "consistently, also with equal characters for different variables; matrix holes filled), then along a random history of host extensions "
                 "of length <= 6 (quick) / 20 (thorough); the same from an occurrence found in a random planted host; every check is one case; "
@@ -162,7 +163,7 @@ PROPS.update({
                        "(iii) fingerprinting the same cases in several separate processes; the Coq part only records that the modelled traversal is a "
                        "function of the dumped automaton and the host.",
         "technique": "source audit + in-process and cross-process differential comparison (theorem part trivial by construction)"},
-    "C08": {"subs": ["c08"], "level": "exploration",
+    "C08": {"subs": ["c08", "pg08"], "level": "exploration",
         "rule": AUT_RULE + "; plus a degenerate stream (empty pattern set, empty and one-cell patterns, every degenerate host: empty, ragged, "
                 "non-ASCII) under Never / Default / a Custom sequence; construction of ManyMatcher, find_matches, NaiveManyMatcher and "
                 "SinglePatternMatcher are all run under catch_unwind with overflow checks and debug assertions enabled",
